@@ -20,6 +20,7 @@ import (
 	"github.com/emitter-io/emitter/internal/security"
 	"github.com/emitter-io/emitter/internal/verifx/engine/brokerx"
 	"github.com/emitter-io/emitter/internal/verifx/engine/core"
+	"github.com/emitter-io/emitter/internal/verifx/engine/sched"
 	"github.com/emitter-io/emitter/internal/verifx/engine/session"
 	"github.com/emitter-io/emitter/internal/verifx/engine/xstate"
 	"github.com/weaveworks/mesh"
@@ -857,6 +858,10 @@ func search(c *core.Ctx, cfg Config) {
 
 // worker serves expansion requests for one configuration (see xstate.RunProcs).
 func worker(c *core.Ctx, args []string) {
+	if len(args) > 0 && args[0] == "sched" {
+		sched.WorkerMain(c, concScenarios(), args[1:])
+		return
+	}
 	if len(args) < 2 || args[0] != "xstate" {
 		return
 	}
@@ -894,6 +899,14 @@ func configs(quick bool) []Config {
 }
 
 func run(c *core.Ctx) {
+	if only := os.Getenv("VERIF_C05_ONLY"); only == "" || only == "sched" {
+		bound := 2
+		if !c.Quick() {
+			bound = 3
+		}
+		c.Set("sched_bound_completed", sched.Drive(c, []string{"first-contact"}, bound))
+		c.Set("sched_schedules", c.Count("schedules"))
+	}
 	for _, cfg := range configs(c.Quick()) {
 		if only := os.Getenv("VERIF_C05_ONLY"); only != "" && only != cfg.Name {
 			continue // developer aid: run a single configuration
@@ -904,12 +917,15 @@ func run(c *core.Ctx) {
 		}
 		search(c, cfg)
 	}
-	c.Assume("deliveries are atomic at a broker (two merges never run concurrently inside one broker)")
+	c.Assume("in the searches deliveries are atomic at a broker; two deliveries at once are explored only for a peer's first contact (part conc: yields in the member list, the rest of a delivery atomic)")
 	c.Assume("mesh routing is transcribed for <= 3 brokers: broadcast along the breadth-first tree from the source, periodic gossip and relayed deltas to every neighbour (except the sender); the per-link senders are real mesh gossipSender objects")
 	c.Assume("one logical, strictly increasing clock shared by all brokers (clock skew and ties are C04's business); peer liveness timeouts (30 s) never elapse")
 }
 
 func replay(c *core.Ctx, raw json.RawMessage) {
+	if sched.ReplayCase(c, concScenarios(), raw) {
+		return
+	}
 	var cs struct {
 		Config Config `json:"config"`
 		Ops    []int  `json:"ops"`
